@@ -482,6 +482,9 @@ func sectionXRead(rng *vh.Rng) {
 			{Parts: 4, Events: 1500, MsgLen: 80, Readers: 8, Reads: 1 << 20, DurMs: dur, Page: 10000, Writers: w},
 			{Parts: 3, Events: 2000, MsgLen: 60, Readers: 12, Reads: 1 << 20, DurMs: dur, Page: 300, Writers: w, Procs: 2},
 		} {
+			if c.Procs == 4 && i >= 2 {
+				continue // the 2 MB-page configuration is the expensive one (128k events written per run): twice per thorough run
+			}
 			runXRead(c, sec)
 			if len(res.SpecFailures) > 0 && res.SpecFailures[len(res.SpecFailures)-1].Section == "xread" {
 				res.Done(sec)
